@@ -98,7 +98,9 @@ type Chain struct {
 // InjectedError is the JSON-RPC error answered at an armed call.
 type InjectedError struct{ Seq int }
 
-func (e *InjectedError) Error() string  { return fmt.Sprintf("fakechain: injected failure at rpc call %d", e.Seq) }
+func (e *InjectedError) Error() string {
+	return fmt.Sprintf("fakechain: injected failure at rpc call %d", e.Seq)
+}
 func (e *InjectedError) ErrorCode() int { return -32000 }
 
 // InjectedText is contained in the message of every injected error (the client
